@@ -16,6 +16,7 @@ import (
 	"pgregory.net/rapid"
 
 	"verif/internal/cat"
+	"verif/internal/compose"
 	"verif/internal/ev"
 	"verif/internal/fw"
 	"verif/internal/hx"
@@ -26,17 +27,22 @@ const prop = "C12"
 
 // Case selects a program, an entry point and a fault.
 type Case struct {
-	Prog       string `json:"prog"`
-	Entry      string `json:"entry"`
-	Mode       string `json:"mode"` // "ref" | "failat" | "cancel" | "failnth" | "refuse" | "cancelmid"
-	K          int    `json:"k,omitempty"`
-	InjectFile string `json:"inject_file,omitempty"` // inject a failing expression into this file
-	InjectEnd  bool   `json:"inject_end,omitempty"`
+	// Gen, when set, is a generated composition program used instead of a catalogue program.
+	Gen        *compose.Case `json:"gen,omitempty"`
+	Prog       string        `json:"prog"`
+	Entry      string        `json:"entry"`
+	Mode       string        `json:"mode"` // "ref" | "failat" | "cancel" | "failnth" | "refuse" | "cancelmid"
+	K          int           `json:"k,omitempty"`
+	InjectFile string        `json:"inject_file,omitempty"` // inject a failing expression into this file
+	InjectEnd  bool          `json:"inject_end,omitempty"`
 }
 
 const injected = `<p>{{ who | boom }}</p>`
 
 func program(c Case) (cat.Program, error) {
+	if c.Gen != nil {
+		return c.Gen.Program("generated"), nil
+	}
 	p, ok := cat.ByName(c.Prog)
 	if !ok {
 		return p, fmt.Errorf("unknown program %q", c.Prog)
@@ -234,6 +240,9 @@ func check(c Case) error {
 // complete checks that a successful render delivered the whole document: the END marker that
 // every catalogue program carries as its last element is there.
 func complete(p cat.Program, out string) error {
+	if p.Name == "generated" {
+		return nil // completeness of generated programs is checked against the reference bytes
+	}
 	var tree []*hx.N
 	var err error
 	if strings.Contains(out, "</html>") {
@@ -254,6 +263,9 @@ func complete(p cat.Program, out string) error {
 func classify(c Case) (bool, []string) {
 	cls := []string{"entry=" + c.Entry, "mode=" + c.Mode}
 	p, _ := cat.ByName(c.Prog)
+	if c.Gen != nil {
+		cls = append(cls, "generated-program")
+	}
 	if p.Fails {
 		cls = append(cls, "failing-program")
 	}
@@ -330,6 +342,21 @@ func TestProp(t *testing.T) {
 	if ok {
 		rec.Exhaustive(fmt.Sprintf("every catalogue program x Template entry point x {reference, cancelled context, context cancelled during evaluation, injected failure in every file at start/end, writer failing at every byte offset 0..len, every single write call failing once, size-limited writers} (%d cases)", i))
 	}
+	// generated composition programs (includes, slots, loops, chains) x file entry points x faults
+	run.Rapid(t, rec, "generated", func(t *rapid.T) Case {
+		g := compose.Gen(t)
+		c := Case{Gen: &g, Prog: "generated", Entry: rapid.SampledFrom([]string{"load", "file"}).Draw(t, "entry"),
+			Mode: rapid.SampledFrom([]string{"failat", "failat", "failnth", "refuse", "cancel", "cancelmid", "ref"}).Draw(t, "mode")}
+		c.K = rapid.IntRange(0, 1500).Draw(t, "k")
+		if c.Mode == "failnth" {
+			c.K = rapid.IntRange(0, 200).Draw(t, "kw")
+		}
+		if c.Mode == "refuse" {
+			c.K = rapid.IntRange(0, 64).Draw(t, "km")
+		}
+		return c
+	}, classify, check)
+
 	// random combination (keeps the rapid path and shrinking available for seeded changes)
 	names := cat.Names()
 	run.Rapid(t, rec, "random", func(t *rapid.T) Case {
